@@ -110,6 +110,22 @@ class Opaque:
 OPAQUE = Opaque()
 
 
+class Sym(Opaque):
+    """an opaque value that remembers the caller's expression it was bound from (row counts passed to helpers)"""
+
+    def __init__(self, text):
+        self.text = text
+
+    def __repr__(self):
+        return f"?{self.text}"
+
+
+@dataclass
+class LocalFn:  # a helper defined inside the sampling function; its free names are the enclosing bindings
+    node: ast.FunctionDef
+    env: dict
+
+
 def operands(v) -> Optional[List[Pts]]:
     if isinstance(v, Pts):
         return [v]
@@ -210,6 +226,19 @@ class Interp:
             return Tup([self.ev(e, env) for e in node.elts])
         if isinstance(node, ast.List):
             return Lst([self.ev(e, env) for e in node.elts])
+        if isinstance(node, (ast.ListComp, ast.GeneratorExp)) and len(node.generators) == 1 and not node.generators[0].ifs:
+            g = node.generators[0]
+            it = self.ev(g.iter, env)
+            if isinstance(it, (Tup, Lst)):
+                out = []
+                for e in it.elts:
+                    e2 = dict(env)
+                    self.assign(g.target, e, e2)
+                    out.append(self.ev(node.elt, e2))
+                return Tup(out) if isinstance(node, ast.GeneratorExp) else Lst(out)
+            if any(isinstance(n, ast.Call) and isinstance(n.func, ast.Attribute) and n.func.attr in ("sample_random_uniform", "sample_grid", "_contains") for n in ast.walk(node.elt)):
+                raise Undecided(f"sampling inside a comprehension over a non-literal sequence: {dump(node)[:70]}")
+            return OPAQUE
         if isinstance(node, ast.UnaryOp) and isinstance(node.op, ast.Not):
             v = self.ev(node.operand, env)
             if isinstance(v, Const):
@@ -345,7 +374,7 @@ class Interp:
             if d.name in ("M", "Minner"):
                 raise Undecided("recursive sampling of the operation itself")
             nreq = next((k.value for k in node.keywords if k.arg == "n"), node.args[0] if node.args else None)
-            return Pts(self.dom_atom(d), origin=("∂" if d.boundary else "") + d.name, requested=dump(nreq) if nreq is not None else None)
+            return Pts(self.dom_atom(d), origin=("∂" if d.boundary else "") + d.name, requested=self.symtext(nreq, env) if nreq is not None else None)
         if ch in ("torch.logical_not", "torch.bitwise_not") and len(node.args) == 1:
             v = self.ev(node.args[0], env)
             if isinstance(v, Mask):
@@ -416,6 +445,10 @@ class Interp:
             bind_self = True
             if target is not None:
                 return self.run_function(target, node, env, self_dom=Dom("Minner"))
+        elif isinstance(fn, ast.Name) and isinstance(env.get(fn.id), LocalFn):
+            lf = env[fn.id]
+            fi = FuncInfo(name=lf.node.name, qual=f"{self.stack[-1].qual}.<locals>.{lf.node.name}", node=lf.node, module=self.cur_module, cls=None)
+            return self.run_function(fi, node, env, closure=lf.env)
         elif isinstance(fn, ast.Name):
             got = self.repo.lookup(self.cur_module, fn.id)
             if isinstance(got, FuncInfo):
@@ -438,6 +471,20 @@ class Interp:
                     return got
         return None
 
+    def symtext(self, node: ast.AST, env) -> str:
+        """text of an expression with every name that stands for a caller's / earlier expression replaced by it"""
+        import copy
+
+        class Sub(ast.NodeTransformer):
+            def visit_Name(s, n):
+                v = env.get(n.id)
+                if isinstance(v, Sym):
+                    return ast.parse(v.text, mode="eval").body
+                if isinstance(v, Const) and isinstance(v.v, (int, float, bool, str, type(None))):
+                    return ast.Constant(v.v)
+                return n
+        return dump(Sub().visit(copy.deepcopy(node)))
+
     def arg(self, call: ast.Call, name: str, pos: int, env):
         for k in call.keywords:
             if k.arg == name:
@@ -450,6 +497,8 @@ class Interp:
         vals = [v for v in vals if v is not None]
         if not vals:
             return OPAQUE
+        if len(vals) == 1:
+            return vals[0]
         if all(operands(v) is not None for v in vals):
             return PSet(dedupe([o for v in vals for o in operands(v)]))
         if all(isinstance(v, Tup) for v in vals) and len({len(v.elts) for v in vals}) == 1:
@@ -463,7 +512,7 @@ class Interp:
         return OPAQUE
 
     # --------------------------------------------------------------- functions
-    def run_function(self, fi: FuncInfo, call: Optional[ast.Call], env, depth_guard=None, self_dom=None):
+    def run_function(self, fi: FuncInfo, call: Optional[ast.Call], env, depth_guard=None, self_dom=None, closure=None):
         if len(self.stack) >= MAX_DEPTH:
             raise Undecided(f"helper nesting deeper than {MAX_DEPTH} at {fi.fq}")
         if fi in self.stack:
@@ -471,18 +520,24 @@ class Interp:
         self.visited.append(fi)
         a = fi.node.args
         params = [x.arg for x in a.posonlyargs + a.args]
-        new_env: Dict[str, object] = {}
+        new_env: Dict[str, object] = dict(closure) if closure is not None else {}
         if fi.cls is not None and params and params[0] == "self":
             params = params[1:]
+        given: Dict[str, object] = {}
         if call is not None:
+            def bound(v):
+                got = self.ev(v, env)
+                return Sym("(" + self.symtext(v, env) + ")") if got is OPAQUE else got
             for p, v in zip(params, call.args):
-                new_env[p] = self.ev(v, env)
+                given[p] = bound(v)
             for k in call.keywords:
                 if k.arg in params:
-                    new_env[k.arg] = self.ev(k.value, env)
+                    given[k.arg] = bound(k.value)
         defaults = dict(zip(params[len(params) - len(a.defaults):], a.defaults)) if a.defaults else {}
         for p in params:
-            if p not in new_env:
+            if p in given:
+                new_env[p] = given[p]
+            else:
                 new_env[p] = self.ev(defaults[p], {}) if p in defaults and isinstance(defaults[p], ast.Constant) else OPAQUE
         self.stack.append(fi)
         prev_mod = self.cur_module
@@ -517,7 +572,7 @@ class Interp:
         if isinstance(target, ast.Name):
             env[target.id] = val
         elif isinstance(target, (ast.Tuple, ast.List)):
-            if isinstance(val, Tup) and len(val.elts) == len(target.elts):
+            if isinstance(val, (Tup, Lst)) and len(val.elts) == len(target.elts):
                 for t, v in zip(target.elts, val.elts):
                     self.assign(t, v, env)
             else:
@@ -548,7 +603,7 @@ class Interp:
         for k, v in list(e_true.items()):
             if isinstance(v, Pts) and v.ident == cnt.idx.about:
                 # the comparison partner must be the row count the set was requested with
-                if v.requested is not None and dump(other_node) == v.requested:
+                if v.requested is not None and self.symtext(other_node, env) == v.requested:
                     nv = Pts(B.conj(v.facts, cnt.idx.f), ident=v.ident, origin=v.origin)
                     nv.requested = v.requested
                     e_true[k] = nv
@@ -562,8 +617,13 @@ class Interp:
             return True
         if isinstance(s, ast.Raise):
             return True
+        if isinstance(s, ast.FunctionDef) and not s.decorator_list:
+            env[s.name] = LocalFn(s, env)  # late binding of the enclosing names, as in Python
+            return False
         if isinstance(s, ast.Assign):
             v = self.ev(s.value, env)
+            if v is OPAQUE and all(isinstance(t, ast.Name) for t in s.targets):
+                v = Sym("(" + self.symtext(s.value, env) + ")")
             for t in s.targets:
                 self.assign(t, v, env)
             return False
@@ -577,7 +637,7 @@ class Interp:
                             env[s.target.id] = PSet(dedupe(operands(cur) + operands(v)))
                             return False
                     raise Undecided(f"in-place arithmetic on a sampled point set: {dump(s)[:60]}")
-                env[s.target.id] = OPAQUE
+                env[s.target.id] = Sym(f"_aug{next(self.fresh)}")
             return False
         if isinstance(s, ast.Expr):
             if isinstance(s.value, ast.Call):
